@@ -1,6 +1,7 @@
 CONSTANTS
   N = 2
   MaxTasks = 1
+  G = 1
   Dev = {"StopJoinsWorkers"}
 SPECIFICATION Spec
 CHECK_DEADLOCK FALSE
